@@ -119,8 +119,8 @@ CHECKS = {
                    "Sanitizer-instrumented sweep of the boundary domain in every zone; saturated answers must be exactly min()/max() where the 128-bit reference places the instant outside the range and exact otherwise.",
                    ["C10:unique", "C10:last-representable", "C10:one-past-last", "C01:rule-shiftN"]),
     "C11": mk_zone("C11", "next/prev_transition enumerate the real changes", ZONE_RULE + "; plus full forward chain from min() and backward chain from max()", "DESIGN.md 3/C11",
-                   "Forward and backward chains are walked on the real library and compared element by element with the reference's list of real changes; point queries at every probe and at each chain element +-1.",
-                   ["C11:chain-extended", "C11:chain-file-only", "C11:next:just-before", "C11:query-at-change", "C11:prev:has", "C11:prev:none"]),
+                   "Forward and backward chains are walked on the real library and compared element by element with the reference's list of real changes; point queries at every probe and at each chain element +-1. In the hand-made files whose first entry at -2^59 changes the type (documented by the library as a sentinel, never written by zic) that one change may be reported or not, but identically by both chains and all point queries.",
+                   ["C11:chain-extended", "C11:chain-file-only", "C11:next:just-before", "C11:query-at-change", "C11:prev:has", "C11:prev:none", "C11:bigbang-entry-changes-type"]),
 }
 
 def mk_civil(pid, title, rule, text, need):
@@ -219,12 +219,13 @@ CHECKS["C20"] = mk_sched("C20", "custom factory: once per name, serially, on the
     ["C13:H1:preemptions=1", "C13:H2", "C13:H4", "C13:H5", "C13:H8-AABX:coarse"])
 
 CHECKS["C14"] = mk_simple("C14", "hidden_state", "results never depend on call history",
-    "hint part: for every corpus zone (598 shipped + synthetic family) the hidden state (local_time_hint_, time_local_hint_) is read from and forced into the live object; reachable values are established by applying every probe as a real API call from the fresh state; then for EVERY index value 0..n+1 per direction (full product of both for tables of at most 40 entries, plus a diagonal) the whole probe panel (both ends and middle of every table interval in both key orders, inside every gap and overlap, far-future and extreme arguments) is evaluated and compared with the fresh-state answer (quick tier, tables of more than 64 entries: per state the probes of the intervals within +-3 of the forced index, a fixed spread of ~40 probes over the table and all global probes; complete panel for every 25th zone, for small tables and in the thorough tier); plus real two-call sequences over neighbouring intervals. cache part: ALL load sequences of length <= 4 (5) over {A, A2 (same bytes), B, file:B (different bytes), X (unserved), a canonical and a non-canonical fixed name, an out-of-range fixed-shaped name, UTC, BAD (served but rejected)} from an emptied cache with a counting data source",
+    "hint part: for every corpus zone (598 shipped + synthetic family) the hidden state (local_time_hint_, time_local_hint_) is read from and forced into the live object; reachable values are established by applying every probe as a real API call from the fresh state; then for EVERY index value 0..n+1 per direction (full product of both for tables of at most 40 entries, plus a diagonal) the whole probe panel (lookup(tp)/lookup(cs) at both ends and middle of every table interval, inside every gap and overlap; next_transition and prev_transition on both sides of every table entry; format and parse at every 4th entry; far-future and extreme arguments) is evaluated and compared with the fresh-state answer (quick tier, tables of more than 64 entries: per state the probes of the intervals within +-3 of the hint their own code path consults and +-1 of the other hint, a fixed spread of ~40 probes over the table and all global probes; complete panel for every 25th zone, for small tables and in the thorough tier); plus real two-call sequences over neighbouring intervals. cache part: ALL load sequences of length <= 4 (5) over {A, A2 (same bytes), B, file:B (different bytes), X (unserved), a canonical and a non-canonical fixed name, an out-of-range fixed-shaped name, UTC, BAD (served but rejected)} from an emptied cache with a counting data source",
     "Explicit-state exploration of the real objects: states = hint pairs / cache contents, transitions = public API calls; in every state every probe must answer as a freshly loaded zone does; reloads return the first identity without consulting the data source; failures stay failures with UTC.",
     ["C14:hints:full-product", "C14:hints:per-direction", "C14:hints:table-size-big", "C14:cache:len4"],
     "Trusted base: private members are read/forced via -fno-access-control on the harness TU only; the fresh-state answers themselves are checked against the reference model by C01/C02. Forcing a hint value is the same state an API call leaves (asserted per zone by reading the members after real calls).",
     engine="E2", min_eval=1000000,
     technique="explicit-state model checking on the implementation: exhaustive enumeration of the hidden-state space (hint indices x probe panel; name-cache contents x load sequences) with a differential oracle against the fresh state")
+CHECKS["C14"]["budget"] = {"quick": 480, "thorough": 5400}
 
 
 def c12_post(rundir, merged):
